@@ -378,7 +378,7 @@ def run(prop, tier, replay=None):
     items = list(trans.values())
     keys = list(trans.keys())
     # 4. validate every distinct observed transition with TLC
-    verdicts = dict(zip(keys, shard_validate("Trace_AtomsAbs", TRACE_CFG, items, shards=8, workers=2, tag="val-" + prop)))
+    verdicts = dict(zip(keys, shard_validate("Trace_AtomsAbs", TRACE_CFG, items, shards=14, workers=1, tag="val-" + prop)))
     out.traces = len(items)
     # a behaviour stops counting at its first rejected transition: later transitions start from a state
     # the specification does not have
